@@ -267,6 +267,156 @@ Section Generic.
     - constructor.
     - intros x. split; [intros [] | intros H; now apply Hnp in H].
   Qed.
+
+  (* ------------------------------------------------------------------ *)
+  (** the walk continued from any queue state; PopUntil; RemoveAncestors *)
+  Lemma walk_loop_acc : forall fuel q acc,
+    walk_loop g ins fuel q acc =
+      (fst (walk_loop g ins fuel q []), rev acc ++ snd (walk_loop g ins fuel q [])).
+  Proof.
+    induction fuel as [|fuel IH]; intros q acc; simpl.
+    - now rewrite app_nil_r.
+    - destruct (pop_insert_parents q) as [|x q'|]; simpl; try now rewrite app_nil_r.
+      rewrite (IH q' (x :: acc)), (IH q' [x]). simpl. now rewrite <- app_assoc.
+  Qed.
+
+  Lemma meas_bound : forall roots q, q_inv roots q -> q_meas q <= length g.
+  Proof.
+    intros roots q Hinv. assert (Hb := seen_bound roots q Hinv).
+    destruct Hinv as [I1 [_ [I3 _]]]. assert (H := NoDup_incl_length I1 I3). unfold q_meas. lia.
+  Qed.
+
+  Lemma walk_fuel_indep : forall roots f1 f2 q,
+    q_inv roots q -> complete g roots -> q_meas q < f1 -> q_meas q < f2 ->
+    walk_loop g ins f1 q [] = walk_loop g ins f2 q [].
+  Proof.
+    intros roots. induction f1 as [|f1 IH]; intros f2 q Hinv Hp H1 H2; [lia|].
+    destruct f2 as [|f2]; [lia|]. simpl.
+    destruct (pop_step roots q Hinv Hp) as [[He Hi]|[x [q' [He [Hinv' [Hx [Hm _]]]]]]]; rewrite He; [reflexivity|].
+    rewrite (walk_loop_acc f1 q' [x]), (walk_loop_acc f2 q' [x]).
+    rewrite (IH f2 q'); auto; lia.
+  Qed.
+
+  (** the walk continued from a queue state enumerates, without duplicates, exactly the
+      reachable commits that have not been popped yet *)
+  Lemma walk_tail_spec : forall roots fuel q,
+    q_inv roots q -> complete g roots -> q_meas q < fuel ->
+    exists l, walk_loop g ins fuel q [] = (0, l) /\ NoDup l /\
+              forall x, In x l <-> reach g roots x /\ ~ popped_of q x.
+  Proof.
+    intros roots. induction fuel as [|fuel IH]; intros q Hinv Hp Hf; [lia|].
+    simpl. destruct (pop_step roots q Hinv Hp) as [[He Hi]|[x [q' [He [Hinv' [Hx [Hm [_ Hpop]]]]]]]];
+      rewrite He.
+    - exists []. split; [reflexivity|]. split; [constructor|]. intros x. split; [intros []|].
+      intros [Hr Hn]. apply Hn. apply (eof_complete roots q Hinv Hi) in Hr. split; [exact Hr|].
+      rewrite Hi. tauto.
+    - destruct (IH q' Hinv' Hp) as [l [Hw [Hnd Hl]]]; [lia|].
+      rewrite (walk_loop_acc fuel q' [x]), Hw. simpl. exists (x :: l). split; [reflexivity|].
+      split.
+      + constructor; [|exact Hnd]. intros Hin. apply Hl in Hin. apply (proj2 Hin). apply Hpop. now right.
+      + intros y. simpl. rewrite Hl, Hpop. split.
+        * intros [<-|[Hr Hn]].
+          -- destruct Hinv as [_ [_ [I3 [I4 _]]]]. split; [apply I4; now apply I3|].
+             intros [_ Hn]. now apply Hn.
+          -- split; [exact Hr | tauto].
+        * intros [Hr Hn]. destruct (N.eq_dec x y) as [E|E]; [now left|right].
+          split; [exact Hr|]. intros [H|H]; [now apply Hn | now apply E].
+  Qed.
+
+  (** PopUntil b from a queue state: let l be the walk continued from that state.
+      Either b occurs in l = l1 ++ b :: l2: b is returned, exactly l1 ++ [b] has been popped
+      and the walk continued afterwards is l2; or b does not occur: EOF, everything (l)
+      has been popped and the queue is empty. *)
+  Definition pop_until_post (roots : list id) (fuel : nat) (q : cq) (b : id) (l : list id) : Prop :=
+    (exists l1 l2 q', l = l1 ++ b :: l2 /\ ~ In b l1 /\
+        pop_until g ins fuel q b = Ok (Some b, q', l1 ++ [b]) /\ q_inv roots q' /\
+        (forall y, popped_of q' y <-> popped_of q y \/ In y (l1 ++ [b])) /\
+        (forall fuel', q_meas q' < fuel' -> walk_loop g ins fuel' q' [] = (0, l2))) \/
+    (~ In b l /\ exists q', pop_until g ins fuel q b = Ok (None, q', l) /\
+        q_items q' = [] /\ q_inv roots q' /\
+        (forall y, popped_of q' y <-> popped_of q y \/ In y l)).
+
+  Lemma pop_until_walk : forall roots fuel q b,
+    q_inv roots q -> complete g roots -> q_meas q < fuel ->
+    exists l, walk_loop g ins fuel q [] = (0, l) /\ pop_until_post roots fuel q b l.
+  Proof.
+    intros roots. induction fuel as [|fuel IH]; intros q b Hinv Hp Hf; [lia|].
+    unfold pop_until_post. simpl.
+    destruct (pop_step roots q Hinv Hp) as [[He Hi]|[x [q' [He [Hinv' [Hx [Hm [_ Hpop]]]]]]]];
+      rewrite He.
+    - exists []. split; [reflexivity|]. right. split; [tauto|]. exists q.
+      split; [reflexivity|]. split; [exact Hi|]. split; [exact Hinv|].
+      intros y. simpl. tauto.
+    - assert (Hf' : q_meas q' < fuel) by lia.
+      destruct (IH q' b Hinv' Hp Hf') as [l [Hw Hpost]].
+      rewrite (walk_loop_acc fuel q' [x]), Hw. simpl. exists (x :: l). split; [reflexivity|].
+      destruct (N.eqb x b) eqn:E.
+      + apply N.eqb_eq in E. subst x. left. exists [], l, q'. simpl.
+        split; [reflexivity|]. split; [tauto|]. split; [reflexivity|]. split; [exact Hinv'|]. split.
+        * intros y. rewrite Hpop. split; [intros [H| ->]; auto | intros [H|[<-|[]]]; auto].
+        * intros fuel' Hf2. rewrite <- Hw. eapply walk_fuel_indep; eauto.
+      + apply N.eqb_neq in E. destruct Hpost as [[l1 [l2 [q2 [Hl [Hn [Hu [Hi2 [Hp2 Hw2]]]]]]]]|[Hn [q2 [Hu [Hi2 [Hinv2 Hp2]]]]]].
+        * left. exists (x :: l1), l2, q2. rewrite Hu. simpl. split; [now rewrite Hl|].
+          split; [intros [H|H]; [now apply E | now apply Hn]|]. split; [reflexivity|].
+          split; [exact Hi2|]. split; [|exact Hw2].
+          intros y. rewrite Hp2, Hpop. simpl.
+          split; [intros [[H| ->]|H]; auto | intros [H|[->|H]]; auto].
+        * right. split; [intros [H|H]; [now apply E | now apply Hn]|].
+          exists q2. rewrite Hu. split; [reflexivity|]. split; [exact Hi2|]. split; [exact Hinv2|].
+          intros y. rewrite Hp2, Hpop. simpl. split; [intros [[H| ->]|H]; auto | intros [H|[->|H]]; auto].
+  Qed.
+
+  Theorem pop_until_spec : forall roots q b,
+    q_inv roots q -> complete g roots ->
+    exists l, walk_loop g ins (walk_fuel g) q [] = (0, l) /\ NoDup l /\
+      (forall x, In x l <-> reach g roots x /\ ~ popped_of q x) /\
+      pop_until_post roots (walk_fuel g) q b l.
+  Proof.
+    intros roots q b Hinv Hp.
+    assert (Hf : q_meas q < walk_fuel g) by (assert (H := meas_bound roots q Hinv); unfold walk_fuel; lia).
+    destruct (pop_until_walk roots (walk_fuel g) q b Hinv Hp Hf) as [l [Hw Hpost]].
+    destruct (walk_tail_spec roots (walk_fuel g) q Hinv Hp Hf) as [l' [Hw' [Hnd Hl]]].
+    rewrite Hw in Hw'. inversion Hw'; subst l'. exists l. auto.
+  Qed.
+
+  (** RemoveAncestors *)
+  Lemma ra_loop_spec : forall sums items q2,
+    q_inv sums q2 -> complete g sums ->
+    ra_loop g ins items q2 = Ok (filter (fun x => negb (reachb g sums x)) items).
+  Proof.
+    intros sums. induction items as [|x r IH]; intros q2 Hinv Hp; [reflexivity|].
+    cbn [ra_loop filter]. unfold seen. destruct (mem x (q_seen q2)) eqn:Es.
+    - apply mem_In in Es. assert (Hr : reach g sums x) by (destruct Hinv as [_ [_ [_ [I4 _]]]]; now apply I4).
+      apply reachb_spec in Hr. rewrite Hr. simpl. now apply IH.
+    - apply mem_false in Es.
+      assert (Hnp : ~ popped_of q2 x) by (intros [H _]; now apply Es).
+      destruct (pop_until_spec sums q2 x Hinv Hp) as [l [_ [_ [Hl Hpost]]]].
+      destruct Hpost as [[l1 [l2 [q' [Hl' [_ [Hu [Hinv' _]]]]]]]|[Hn [q' [Hu [_ [Hinv' _]]]]]]; rewrite Hu.
+      + assert (Hr : reach g sums x).
+        { apply (Hl x). rewrite Hl'. apply in_or_app. right. now left. }
+        apply reachb_spec in Hr. rewrite Hr. simpl. now apply IH.
+      + assert (Hr : reachb g sums x = false).
+        { apply reachb_false. intros Hr. apply Hn. apply Hl. now split. }
+        rewrite Hr. simpl. now rewrite (IH q' Hinv' Hp).
+  Qed.
+
+  Theorem remove_ancestors_spec : forall sums q,
+    complete g sums ->
+    exists q', remove_ancestors g ins srt q sums = Ok q' /\
+      q_items q' = filter (fun x => negb (reachb g sums x)) (q_items q) /\
+      q_seen q' = q_seen q /\
+      (forall x, In x (q_items q') <-> In x (q_items q) /\ ~ reach g sums x).
+  Proof.
+    intros sums q Hp. unfold remove_ancestors.
+    destruct (new_queue_ok sums) as [q2 Hq2].
+    { intros r Hr. apply Hp. now apply reach_root. }
+    rewrite Hq2. destruct (new_queue_inv sums q2 Hq2) as [Hinv _].
+    rewrite (ra_loop_spec sums (q_items q) q2 Hinv Hp). eexists. split; [reflexivity|]. simpl.
+    repeat split; auto.
+    - apply filter_In in H. tauto.
+    - apply filter_In in H. destruct H as [_ H]. apply negb_true_iff in H. now apply reachb_false in H.
+    - intros [H1 H2]. apply filter_In. split; [exact H1|]. apply negb_true_iff. now apply reachb_false.
+  Qed.
 End Generic.
 
 (** the placement and the sort used by the Go code are permutations *)
